@@ -364,5 +364,11 @@ int main(int argc, char **argv) {
     }
     if (argc < 3) { fprintf(stderr, "usage: %s <prelude 0|1> <scriptfile> [first] | --sites\n", argv[0]); return 2; }
     prelude = atoi(argv[1]);
+#ifdef VH_ASAN
+    {   /* fd 2 is redirected into a capture file while a printer runs: sanitizer reports go to the real stderr always */
+        int fd = dup(2);
+        if (fd >= 0) { fcntl(fd, F_SETFD, FD_CLOEXEC); __sanitizer_set_report_fd((void *) (long) fd); }
+    }
+#endif
     return vh_main(argc, argv, 2);
 }
